@@ -204,17 +204,21 @@ Emit ==
 
 \* ------------------------------------------------------------------ (P) properties
 V0 == variant = 0
+\* instances extracted from grid games are large: there the clauses that do not depend on the step just taken
+\* are evaluated in the state that establishes them only (hand-built instances: in every state)
+Fresh(p) == M.big = 0 \/ p
 Listed == phase \in {"acts", "rows", "policy", "done"}
 Arrays == phase \in {"rows", "policy", "done"}
 \* (P1) search invariant: everything found is reachable, every state already expanded has all its
 \*      positive-probability successors in the set; terminal states are never expanded
 ReachInv ==
-  V0 => /\ frontier \subseteq visited /\ GInit(M, 0) \subseteq visited
+  (V0 /\ Fresh(phase = "reach")) =>
+        /\ frontier \subseteq visited /\ GInit(M, 0) \subseteq visited
         /\ visited \subseteq GReach(M, 0)
         /\ \A s \in visited \ (frontier \cup GTerm(M)) : GEdges(M, 0, s) \subseteq visited
 \* (P2) without a cut-off the search ends in the least fixed point
 ReachFixpoint ==
-  (V0 /\ cut = INF /\ phase # "reach") =>
+  (V0 /\ cut = INF /\ phase # "reach" /\ Fresh(phase = "list")) =>
      /\ visited = GReach(M, 0) /\ GClosed(M, 0, visited)
      /\ M.N <= 6 => /\ visited = LeastClosed(M)
                     /\ \A X \in SUBSET visited : (GInit(M, 0) \subseteq X /\ GClosed(M, 0, X)) => X = visited
@@ -227,16 +231,16 @@ CutSemantics ==
               /\ cut # INF => Cardinality(visited) >= MinI(cut + 1, Cardinality(GReach(M, 0)))
 \* (P4) the state list has no duplicates and is the reachable set unless given
 ListOk ==
-  Listed =>
+  (Listed /\ Fresh(phase = "acts" /\ jseen = {})) =>
      /\ \A i \in 1..Len(lst) : \A k \in 1..Len(lst) : i # k => lst[i] # lst[k]
      /\ IF M.explicit = 1 THEN LSet = GSt(M) ELSE LSet = GReach(M, 0)
 \* (P5) joint actions: per state the product of the per-agent lists; the list is their union over the
 \*      listed states (or the given list), without duplicates, and holds every joint action a listed
 \*      state offers
 JalOk ==
-  /\ \A s \in GSt(M) : ProductOk(M, s)
+  /\ Fresh(phase = "list") => \A s \in GSt(M) : ProductOk(M, s)
   /\ phase = "acts" => jset = JalOf(M, jseen)
-  /\ Arrays =>
+  /\ (Arrays /\ Fresh(phase = "rows" /\ T = <<>>)) =>
        /\ \A i \in 1..Len(jal) : \A k \in 1..Len(jal) : i # k => jal[i] # jal[k]
        /\ JalOf(M, LSet) \subseteq JLSet
        /\ M.explicit = 0 => JLSet = JalOf(M, LSet)
@@ -278,7 +282,7 @@ PolicyProduct ==
         /\ JAvail(M, s) # {} => \A i \in GAg(M) : \A a \in GActs(M, i) :
               SumSet([j \in JLSet |-> IF M.comp[j][i] = a THEN jpm[s][j] ELSE 0], JLSet) = M.W[i][s][a] * PowI(M.QD, M.G - 1)
 \* instance filter
-InstancesWellFormed == WellFormedGame(M) /\ (M.pol = 1 => WellFormedPolicy(M))
+InstancesWellFormed == Fresh(phase = "list") => (WellFormedGame(M) /\ (M.pol = 1 => WellFormedPolicy(M)))
 \* termination: a state without successor is a terminal phase
 Terminates == (~ENABLED Next) => phase \in {"done", "cutdone"}
 =============================================================================
